@@ -169,6 +169,7 @@ def run_session(sess, pool, directory):
 def run_history_real(hist):
     directory = tempfile.mkdtemp(prefix="c14_") if hist["dir"] else None
     out = []
+    nfresh = 0
     try:
         for sess in hist["sessions"]:
             if sess["fresh"]:
@@ -176,8 +177,12 @@ def run_history_real(hist):
                     jf, of = os.path.join(td, "job.pkl"), os.path.join(td, "out.pkl")
                     with open(jf, "wb") as f:
                         pickle.dump((sess, hist["pool"], directory), f)
+                    # ./check pins PYTHONHASHSEED=0 for reproducibility; a "fresh process" must really
+                    # vary the string-hash seed (any two ordinary interpreters do): 1, 2, 3, 1, ...
+                    nfresh += 1
+                    env = dict(os.environ, PYTHONHASHSEED=str(1 + (nfresh - 1) % 3))
                     p = subprocess.run([sys.executable, HERE, "--session", jf, of], capture_output=True,
-                                       text=True, timeout=300)
+                                       text=True, timeout=300, env=env)
                     if p.returncode != 0 or not os.path.exists(of):
                         out.append({"error": (p.stderr or p.stdout)[-1500:]})
                         break
@@ -192,6 +197,14 @@ def run_history_real(hist):
 
 
 def worker_main(argv):
+    if argv[0] == "--digests":
+        import cotengra.reusable as R
+        with open(argv[1], "rb") as f:
+            qs = pickle.load(f)
+        res = [{m: R.hash_contraction(list(i), o, dict(sd), m) for m in ("a", "b")} for i, o, sd in qs]
+        with open(argv[2], "wb") as f:
+            pickle.dump(res, f)
+        return
     if argv[0] == "--session":
         with open(argv[1], "rb") as f:
             sess, pool, directory = pickle.load(f)
@@ -343,7 +356,32 @@ def net_lit(q):
     return "(mkNet %s %s %s)" % (coq(ins), coq(out), coq(sz))
 
 
+B_FIXED = [False]      # is hash_contraction_b the repaired one (decided from real behaviour in run())
+
+
+def b2_fp(q):
+    """the repaired 'b' fingerprint, recomputed independently (used only to classify collisions)"""
+    inputs, output, sd = q
+    edges = {}
+    for ix in output:
+        edges.setdefault(ix, []).append(-1)
+    for i, t in enumerate(inputs):
+        for ix in t:
+            edges.setdefault(ix, []).append(i)
+    return (len(inputs), tuple(sorted((tuple(sorted(n)), int(sd[ix])) for ix, n in edges.items())))
+
+
+def detect_b_fixed():
+    from cotengra.reusable import hash_contraction_b
+    x = ([("a", "b"), ("a", "b"), ()], (), {"a": 2, "b": 3})
+    y = ([("a", "b"), ("a", "b")], (), {"a": 2, "b": 3})
+    return hash_contraction_b(*x) != hash_contraction_b(*y)
+
+
 def fpr_lit(method, pre):
+    if method == "b" and len(pre) == 2 and isinstance(pre[0], int):
+        n, edges = pre
+        return "(FpB2 %d %s)" % (n, coq([([Z(v) for v in nodes], Z(sz)) for nodes, sz in edges]))
     if method == "a":
         ins, out, sz = pre
         return "(FpA %s %s %s)" % (coq([[gen.IDX[c] for c in t] for t in ins]), coq([gen.IDX[c] for c in out]),
@@ -365,7 +403,8 @@ def con_lit(con, K):
 
 def cfg_lit(sess, split):
     ov = {False: "OvFalse", True: "OvTrue", "improved": "OvImproved"}[sess["overwrite"]]
-    return "(mkCfg %s %s %s %s)" % (coq(sess["hash_method"] == "b"), coq(bool(split)), ov, coq(bool(sess["cache_only"])))
+    return "(mkCfg %s %s %s %s %s)" % (coq(sess["hash_method"] == "b"), coq(bool(split)), ov,
+                                      coq(bool(sess["cache_only"])), coq(bool(B_FIXED[0])))
 
 
 def path_lit(comps):
@@ -558,7 +597,7 @@ def build_history_case(hist, real, variant="cur"):
             if fl not in hseen:
                 hseen[fl] = rec["digest"]
                 htab.append("(%s, %s)" % (fl, name_lit(rec["digest"])))
-            fp_cases.append(("fingerprint %s %s" % (coq(sess["hash_method"] == "b"), net_lit(pool[rec["q"]])), fl, rec))
+            fp_cases.append(("fingerprint_c %s %s" % (cfg_lit(sess, True), net_lit(pool[rec["q"]])), fl, rec))
             m = rec["maybe"]
             if m is None:
                 oc = "OtherErr"
@@ -591,6 +630,22 @@ def run(ctx):
     rng = ctx.rng
     variant = detect_variant()
     ctx.coverage["diskdict_variant"] = variant
+    B_FIXED[0] = detect_b_fixed()
+    ctx.coverage["hash_b_variant"] = "repaired" if B_FIXED[0] else "as it stands"
+    # a `fixed: property=C14 PENDING key=<k> ...` line: the repair exists as a proposed patch but is not
+    # yet a commit of /repo; while the old failure still occurs it is reported as a KNOWN-FINDING
+    import re
+    pending = {}
+    for prop_, commit, text in ctx.kf.fixed:
+        mm = re.match(r"key=(\S+)\s+(.*)", text)
+        if prop_ == PROP and commit == "PENDING" and mm:
+            pending[mm.group(1)] = "(repair pending) " + mm.group(2)
+
+    def report(what, rec, key=None, found_input=True):
+        if key is not None and not ctx.known_key(key) and key in pending:
+            ctx.known_hits.setdefault(key, pending[key])
+            return False
+        return ctx.fail(what, rec, key=key, found_input=found_input)
     nh = int(os.environ.get("C14_HISTORIES", 0)) or ctx.n(110, 1200)     # C14_HISTORIES: self-test knob
     hists = [gen_history(rng, ctx.quick) for _ in range(nh)]
     # the two collisions of hash_method='b' as fixed histories (known finding probe, always run)
@@ -604,6 +659,15 @@ def run(ctx):
         p["sessions"] = [{"overwrite": False, "cache_only": False, "hash_method": "b", "split": True,
                           "kind": "hyper", "slicing": False, "repeats": 2, "queries": [0, 1], "fresh": False,
                           "call": "search"}]
+    # what remains of the 'b' finding after the proposed repair: a true relabelling shares the entry, but the
+    # stored sliced index is a label ('b' is the only index that can be sliced; it does not occur in the second)
+    rs_sd = {"a": 1, "b": 2, "c": 1, "z": 2}
+    probes.append({"dir": False, "tags": ["b_relabel_sliced"] * 2,
+                   "pool": [([("a", "b"), ("b", "c")], ("a", "c"), dict(rs_sd)),
+                            ([("a", "z"), ("z", "c")], ("a", "c"), dict(rs_sd))],
+                   "sessions": [{"overwrite": False, "cache_only": False, "hash_method": "b", "split": True,
+                                 "kind": "hyper", "slicing": True, "repeats": 2, "queries": [0, 1], "fresh": False,
+                                 "call": "search"}]})
     # classes that are always part of the quick tier (each caught an independent red-team change):
     #  - flat layout on disk + reload in a fresh process (DiskDict.__getitem__ with a plain string key),
     #  - ReusableRandomGreedyOptimizer serving several different contractions from one object
@@ -628,6 +692,31 @@ def run(ctx):
     hists = probes + classes + hists
     ctx.log("running %d histories through the real optimizers" % len(hists))
     reals = run_workers(ctx, hists)
+    # ---- direct probe: the fingerprint of one contraction must not depend on the interpreter's
+    #      string-hash seed (three child interpreters with PYTHONHASHSEED=1,2,3, both hash methods)
+    dq = [tuple(q) for h in (classes + hists[len(probes) + len(classes):][:12]) for q in h["pool"]][:60]
+    jf = os.path.join(ctx.scratch, "digests.pkl")
+    with open(jf, "wb") as f:
+        pickle.dump(dq, f)
+    dres = {}
+    for hs in ("1", "2", "3"):
+        of = os.path.join(ctx.scratch, "digests_%s.out" % hs)
+        pr = subprocess.run([sys.executable, HERE, "--digests", jf, of], capture_output=True, text=True,
+                            timeout=600, env=dict(os.environ, PYTHONHASHSEED=hs))
+        if pr.returncode != 0 or not os.path.exists(of):
+            ctx.fail("fingerprint probe could not be run", {"stderr": pr.stderr[-1500:]}, found_input=False)
+            continue
+        with open(of, "rb") as f:
+            dres[hs] = pickle.load(f)
+    if len(dres) == 3:
+        for qi_, q_ in enumerate(dq):
+            for meth in ("a", "b"):
+                ds = {hs: dres[hs][qi_][meth] for hs in dres}
+                ctx.count("hashseed_fingerprint_probe")
+                if len(set(ds.values())) != 1:
+                    ctx.fail("the fingerprint (cache key) of one and the same contraction differs between interpreter "
+                             "processes with different string-hash seeds: an on-disk cache is never hit again",
+                             {"query": q_, "hash_method": meth, "digest_by_PYTHONHASHSEED": ds})
 
     hist_cases, fp_cases, hit_cases = [], [], []
     hist_recs, fp_recs, hit_recs = [], [], []
@@ -640,6 +729,8 @@ def run(ctx):
             continue
         # ---------------- oracle over the history -----------------------------------
         sharers = {}          # entry -> the queries that stored or were served under it
+        exact = {}            # the very same contraction (same layout / method) -> stored path, score, digest
+        known_recs = set()
         last_path = {}        # (digest) -> stored path after the last successful call
         last_score = {}
         nontriv = False
@@ -659,6 +750,7 @@ def run(ctx):
             if not hist["dir"]:
                 last_path, last_score = {}, {}     # nothing persists without a directory
                 sharers = {}
+                exact = {}
             for rec in sr["recs"]:
                 q = hist["pool"][rec["q"]]
                 tag = hist["tags"][rec["q"]]
@@ -678,7 +770,20 @@ def run(ctx):
                     ctx.count("shared_entry_%s" % ("equivalent" if not collided else "NOT_equivalent"))
                 key = None
                 if collided and sess["hash_method"] == "b":
-                    key = "hash-b-collision"
+                    mm_ = rec["maybe"]
+                    sliced_ = bool(mm_ and mm_[0] == "ok" and mm_[2]["sliced_inds"])
+                    if any(b2_fp(o) != b2_fp(q) for o in others if not equiv_a(o, q)):
+                        key = "hash-b-collision"          # sub-cases removed by the proposed repair
+                    elif sliced_:
+                        key = "hash-b-relabel-sliced"     # a true relabelling, but sliced indices are labels
+                    if key:
+                        known_recs.add(id(rec))
+                qk = (repr((tuple(map(tuple, q[0])), tuple(q[1]), tuple(sorted(q[2].items())))),
+                      bool(rec["split_used"]), sess["hash_method"])
+                if qk in exact and exact[qk]["digest"] != rec["digest"]:
+                    ctx.fail("the cache key of one and the same contraction differs between processes "
+                             "(%s vs %s): the stored entry can never be hit again" % (exact[qk]["digest"], rec["digest"]),
+                             dict(rep, hashseed_note="fresh sessions run with PYTHONHASHSEED=1,2,3"))
                 if collided and sess["hash_method"] == "a":
                     ctx.fail("two contractions that are not equal up to index order share an entry under hash 'a'",
                              dict(rep, others=others))
@@ -691,10 +796,16 @@ def run(ctx):
                     ctx.count("cache_only_keyerror")
                     if m is None or m[1] != "KeyError":
                         ctx.fail("cache_only miss raised %r instead of KeyError" % (m,), rep)
+                    elif qk in exact and sess["overwrite"] is False:
+                        ctx.fail("cache_only=True raised KeyError for a contraction that is stored in this directory", rep)
                     continue
                 if not ok:
-                    ctx.fail("query raised %r" % (rec.get("raise"),), rep, key=key)
+                    report("query raised %r" % (rec.get("raise"),), rep, key=key)
                     continue
+                if dg not in last_path and qk in exact:
+                    # stored by an earlier process under (what should be) the same key
+                    last_path[dg] = exact[qk]["path"]
+                    last_score[dg] = exact[qk]["score"]
                 present_before = dg in last_path
                 # repeat: no new search, same path
                 if present_before and sess["overwrite"] is False:
@@ -724,15 +835,16 @@ def run(ctx):
                     sharers[dg].append(q)
                 last_path[dg] = tuple(map(tuple, st["path"]))
                 last_score[dg] = st["score"]
+                exact[qk] = {"path": last_path[dg], "score": st["score"], "digest": rec["digest"]}
                 if "tree" in rec:
                     bad = judge_tree(q, rec["tree"], st, sess["kind"])
                     if bad:
-                        ctx.fail(bad, rep, key=key)
+                        report(bad, rep, key=key)
                 elif "path" in rec:
                     if rec["path"] != last_path[dg] or replay_linear(len(q[0]), rec["path"]) is None:
-                        ctx.fail("__call__ returned %r: not the stored complete path" % (rec["path"],), rep, key=key)
+                        report("__call__ returned %r: not the stored complete path" % (rec["path"],), rep, key=key)
                 elif "raise" in rec:
-                    ctx.fail("search() raised %r after _maybe_run_optimizer succeeded" % (rec["raise"],), rep, key=key)
+                    report("search() raised %r after _maybe_run_optimizer succeeded" % (rec["raise"],), rep, key=key)
         ctx.case((hi, repr(hist["pool"]), repr(hist["sessions"])), nontrivial=nontriv,
                  sample=desc if hi in (2, 3) else None)
         # ---------------- model cases ----------------------------------------------------
@@ -757,7 +869,7 @@ def run(ctx):
         for sess, sr in zip(hist["sessions"], real):
             for rec in sr["recs"]:
                 m = rec["maybe"]
-                if m is None or m[0] != "ok":
+                if m is None or m[0] != "ok" or id(rec) in known_recs:
                     continue
                 q = hist["pool"][rec["q"]]
                 lhs = "hit_view %s %s" % (net_lit(q), con_lit(m[2], K))
@@ -802,7 +914,7 @@ def run(ctx):
 
 
 if __name__ == "__main__":
-    if len(sys.argv) > 1 and sys.argv[1] in ("--worker", "--session"):
+    if len(sys.argv) > 1 and sys.argv[1] in ("--worker", "--session", "--digests"):
         worker_main(sys.argv[1:])
     else:
         main(PROP, run)
